@@ -35,6 +35,9 @@ type WriteLog struct {
 	mu      sync.Mutex
 	Entries []Entry
 	On      bool
+	// BeforeAdd, if set, is called with the index the next entry will get (the WAL recorder
+	// notes how much of its files is on disk at that moment).
+	BeforeAdd func(idx int)
 }
 
 func (l *WriteLog) add(e Entry) int {
@@ -42,6 +45,9 @@ func (l *WriteLog) add(e Entry) int {
 	defer l.mu.Unlock()
 	if !l.On {
 		return -1
+	}
+	if l.BeforeAdd != nil {
+		l.BeforeAdd(len(l.Entries))
 	}
 	l.Entries = append(l.Entries, e)
 	return len(l.Entries)
